@@ -35,6 +35,10 @@ RULE = ("Programs of 3-25 lines with ascending random numbers (gaps 1..3000, sta
         "names a line whose number changes or a missing line; run: always; trap: the trap fired "
         "in the probe); distinct = distinct case.")
 ASSUMPTIONS = [
+    "ERL is 0 while no error has happened, and 0 is also a line number: when an ERL comparison's "
+    "operand refers to line 0 before RENUM or is renumbered to 0, the rewritten program may "
+    "legitimately test differently (GW-BASIC does the same); for such programs listing and "
+    "messages are still checked but the behaviour comparison is skipped and counted as excluded",
     "the blank stored behind line number 0 (GW-BASIC quirk) stays with the line through RENUM",
     "trap cases with a rejected RENUM are skipped (the error is caught by the active trap)",
     "'Undefined line x in y': one message per missing reference naming x; y may be the old or the "
@@ -279,6 +283,22 @@ def map_output(out, mapping):
     return _NUM_IN_OUT.sub(sub, out)
 
 
+_ERL_REF = re.compile(r'ERL\s*[<>=]+\s*\{r(\d+)\}')
+
+
+def erl_zero_ambiguity(case, nums, mapping):
+    """
+    An ERL comparison whose operand is line 0 before RENUM or becomes 0 by RENUM: while no error
+    has happened ERL is 0 too, so the (correctly) rewritten operand changes the outcome of the test.
+    """
+    for t in case['lines']:
+        for k in _ERL_REF.findall(t):
+            n = nums[int(k) % len(nums)]
+            if n == 0 or mapping.get(n, n) == 0:
+                return True
+    return False
+
+
 def run_prog(s, res, cmd, what):
     s.execute(b'CLS')
     o = s.execute(cmd)
@@ -332,6 +352,11 @@ def check_run(case, res):
         if mapping is not None:
             check_messages(res, out, messages, 'RENUM%s' % progio.renum_args(new, old, inc).decode())
         check_listing(b, res, after, 'after RENUM%s' % progio.renum_args(new, old, inc).decode())
+        if erl_zero_ambiguity(case, nums, m):
+            # structural checks above stay; the behaviour clause is not asserted
+            res.label('excluded: ERL vs line 0 ambiguity')
+            res.excluded += 1
+            return res
         if trap:
             fired = False
             for pi in case['probes']:
